@@ -78,5 +78,6 @@ package main
 // C12: the deferred clean-up of indexArg (same contract as gitindex.indexGitRepo$1).
 //@ func main.indexArg$1
 //@   may_panic
-//@   requires builder != nil && !effectFailed
-//@   assert at call:Finish: retErr == nil || builder.buildError != nil
+//@   requires builder != nil && !effectFailed && !failureReported
+//@   ghost at call:MarkFailed: failureReported = true
+//@   assert at call:Finish: failureReported
